@@ -33,6 +33,8 @@ def show_string(e, n):
     out = [write(e), write(C('|'))]
     for i in range(n):
         out += [write(is_(idx(e, I(i)), 'int')), write(C(','))]
+        if i % 2 == 0:
+            out += [write(idx(e, I(i)))]          # the element itself: a byte, not a number
     out += [write(ln(e)), write(C('\n'))]
     return out
 
